@@ -37,7 +37,12 @@ func genLevelsCase(r *rand.Rand, i int) c03Case {
 	kinds := make([]lib.AtomKind, nVal)
 	for v := 0; v < nVal; v++ {
 		names[v] = fmt.Sprintf("val%d", v)
-		kinds[v] = lib.AtomKinds[r.Intn(len(lib.AtomKinds))]
+		for {
+			kinds[v] = lib.AtomKinds[r.Intn(len(lib.AtomKinds))]
+			if kinds[v].Name != "inFractional" { // listed known finding F16 (C01): its truth is not the classical one
+				break
+			}
+		}
 	}
 	truth := map[string][]bool{}
 	for n := 0; n < nNodes; n++ {
